@@ -81,7 +81,9 @@ def gen(seed, run, tier='quick'):
         'greg': rng.choice([0, 2, 3]),
         'grem': rng.choice([0, 1, 2]),
     }
-    n_tok = rng.randrange(3, MAX_TOKENS + 1)
+    deep = tier == 'thorough'
+    max_depth = MAX_DEPTH + 2 if deep else MAX_DEPTH
+    n_tok = rng.randrange(3, (2 * MAX_TOKENS if deep else MAX_TOKENS) + 1)
     toks = []
     depth = 0
     mstack = []     # generator-side bias only
@@ -91,7 +93,7 @@ def gen(seed, run, tier='quick'):
     while len(toks) < n_tok:
         k = rng.choices(kinds, weights)[0]
         if k == 'enter':
-            if depth >= MAX_DEPTH:
+            if depth >= max_depth:
                 continue
             c = rng.randrange(n_mc)
             toks.append(['enter', c])
